@@ -322,20 +322,32 @@ func TestHonest(t *testing.T) {
 			r.expect("BlockchainInfo", fmt.Sprintf("min0=%v,max0=%v,n=%d", min == 0, max == 0, lenMetas(wb)), gb, err, wb, werr, idChainInfo, inc)
 		}
 
-		// TxSearch with proofs
-		for _, q := range w.searchQueries(t) {
+		// TxSearch with proofs: queries over several heights, every order, pages that span heights
+		for qi, q := range w.searchQueries(t) {
 			c := w.drawVerifier(t, li, "vts")
-			gs, err := c.TxSearch(bg, q, true, nil, ip(100), "asc")
-			ws, werr := core.TxSearch(bg, q, true, nil, ip(100), "asc")
+			order := rapid.SampledFrom([]string{"asc", "desc", "desc", ""}).Draw(t, "tsorder")
+			perPage := rapid.SampledFrom([]int{2, 3, 5, 30, 100}).Draw(t, "tsperpage")
+			page := rapid.SampledFrom([]int{1, 1, 2}).Draw(t, "tspage")
+			gs, err := c.TxSearch(bg, q, true, ip(page), ip(perPage), order)
+			var ws *ctypes.ResultTxSearch
+			var werr error
+			if p := safely(func() { ws, werr = core.TxSearch(bg, q, true, ip(page), ip(perPage), order) }); p != nil {
+				t.Fatalf("rpc/core.TxSearch(%q, page %d, per_page %d, order %q) panicked: %v", q, page, perPage, order, p)
+			}
 			inc = nil
+			spans := map[int64]bool{}
 			if err == nil {
 				for _, rt := range gs.Txs {
 					if i, rel := w.consistentTx(rt); i != nil || rel {
 						inc = bad("txs", "%v (relabelled=%v)", i, rel)
 					}
+					spans[rt.Height] = true
 				}
 			}
-			r.expect("TxSearch", fmt.Sprintf("n=%d", lenTxs(ws)), gs, err, ws, werr, "", inc)
+			if len(spans) > 1 {
+				lib.Class("TestHonest", "honest:TxSearch:page-spans-heights:"+orderName(order))
+			}
+			r.expect("TxSearch", fmt.Sprintf("q%d,order=%s,n=%d,heights=%s", qi, orderName(order), lenTxs(ws), bucket(len(spans))), gs, err, ws, werr, "", inc)
 		}
 	})
 }
@@ -360,7 +372,8 @@ func (w *world) searchQueries(t *rapid.T) []string {
 		tr := rapid.SampledFrom(w.txs).Draw(t, "searchtx")
 		qs = append(qs, fmt.Sprintf("tx.height=%d", tr.Height))
 	}
-	qs = append(qs, "xfer.sender='alice'")
+	q, _ := w.multiHeightQuery(t, "searchmulti")
+	qs = append(qs, q, "xfer.sender='alice'")
 	return qs
 }
 
